@@ -1,6 +1,6 @@
 """C07 Faults confined to one request never harm the connection or other requests."""
 from engine import flow as fl, ru, paths as pa, expr, dispatch as dp
-from rules import shared
+from rules import shared, C17 as _c17
 
 EXPLANATION = (
     "Outcome tables and type facts: (a) CloseStream::handle_quic_stream_error maps a peer reset/stop "
@@ -31,6 +31,7 @@ def run(ctx):
     # a well-formed stream must never be reported as malformed: the frame reader's memo (shared with C02) is what turns a
     # correct byte sequence delivered in pieces into H3_FRAME_ERROR when it goes stale
     shared.frame_decoder_memo(ctx, "C07-b")
+    _c17.errors_not_swallowed(ctx, "C07-b")
     prog = ctx.prog
     # ------------------------------------------------------------------ C07-a handle_quic_stream_error
     h = ru.need(ctx, "C07-a", CEC + "CloseStream::handle_quic_stream_error")
